@@ -1,255 +1,21 @@
-(* Conc/PipelineLive_proofs.v — liveness statements (C17) of Conc/PipelineSpec.v.
+(* Conc/PipelineLive_proofs.v — liveness statements (C17) of Conc/PipelineSpec.v, for the repaired pipeline.
 
-   Part 1  `deadlock_free_refuted : deadlock_free_refuted_stmt 8 7 2`: the lost wake-up of the flush task,
-           as a concrete 126-event run of 4 committers.
-   Part 2a `deadlock_free_core_false`, `deadlock_free_partial_false`: the two positive statements are FALSE as
-           stated: a commit() of an empty batch (`LEnter 0`) blocks in the model while holding the mutex.
-   Part 2b `deadlock_free_core_partial`: deadlock_free_core_stmt + "no empty batch".
-   Part 3  `deadlock_free_partial_nonempty`: deadlock_free_partial_stmt + "no empty batch".
-   Part 4  `terminates : terminates_stmt`.
-   Supporting files: PipelineLiveCore{,2,3,4,5}.v (core invariant), PipelineLiveGen{,2,3,4,5,6}.v (invariant of the
-   whole system), PipelineLiveTerm.v (the measure). *)
+   `deadlock_free : deadlock_free_stmt`            no deadlock, whole system (rotation, stall protocol, flush and
+                                                   level tasks, close(), failures, conflicts)
+   `deadlock_free_core : deadlock_free_core_stmt`  corollary: core runs are l0-quiet
+   `terminates : terminates_stmt`                  a natural-number measure decreases on every step of the system
+
+   Supporting files: PipelineLiveBase.v (shared lemmas and tactics), PipelineLiveGen{,2,3,4,5,6}.v (the invariant of
+   the whole system and who can move), PipelineLiveTerm.v (the measure). *)
 From Coq Require Import List Arith Bool Lia Wf_nat.
 From SKV Require Import Conc.Pipeline Conc.PipelineExplore Conc.PipelineSpec.
-From SKV Require Import Conc.PipelineLiveCore Conc.PipelineLiveCore5 Conc.PipelineLiveTerm.
-From SKV Require Import Conc.PipelineLiveGen Conc.PipelineLiveGen5 Conc.PipelineLiveGen6.
+From SKV Require Import Conc.PipelineLiveBase Conc.PipelineLiveGen Conc.PipelineLiveGen5 Conc.PipelineLiveGen6 Conc.PipelineLiveTerm.
 Import ListNotations.
 
-(* ================================================================== Part 1: the lost wake-up *)
-Module Witness.
-
-Definition wc : cfg := {| c_slots := 8; c_permits := 7; c_memlimit := 2; c_l0limit := 100 |}.
-
-(* commit() of thread i with a one-entry batch, up to and including the rotation of the memtable *)
-Definition commit_pre (i imm l0 sq p : nat) : list (actor * label) :=
-  map (fun l => (ACommit i, l))
-    [LEnter 1; LStallRegistered; LStallCounted imm l0; LStallOk; LSemAcquired; LWantLock; LLocked; LChecked;
-     LSeqAllocated sq 1; LOraclePublished; LEnqLoaded p p; LEnqStored; LEnqDone; LEnqueued; LUnlocked;
-     LMemInsert sq; LArenaFull; LRotated].
-(* the second add, mark applied, publish (dequeues its own batch), return *)
-Definition commit_post (i sq p : nat) : list (actor * label) :=
-  map (fun l => (ACommit i, l))
-    [LApplyWoke; LMemInsert sq; LAfterApply false; LMarked; LDeqLoaded (S p) p; LDeqSlot p false; LDeqChecked p true;
-     LDeqCasOk; LDeqCleared; LPubDeq sq 1; LVisLoaded sq (sq - 1); LVisCasOk; LPubCompleted;
-     LDeqLoaded (S p) (S p); LPubExit; LPublished; LRet ResOk].
-
-Definition w_evs_def : list (actor * label) :=
-  [(AFlush, LMemWait)]
-  (* thread 0: rotation, the flush task is asleep and not running: wake_up_memtable notifies it *)
-  ++ commit_pre 0 0 0 1 0 ++ [(ACommit 0, LWakeMem)] ++ commit_post 0 1 0
-  (* the flush task flushes the only immutable memtable and passes its last has_pending check *)
-  ++ map (fun l => (AFlush, l)) [LMemWoken; LMemRunning; LMemFlushed; LSignal false; LMemNoPending]
-  (* threads 1 and 2 rotate while `running` is still set: wake_up_memtable does nothing *)
-  ++ commit_pre 1 0 1 2 1 ++ commit_post 1 2 1
-  ++ commit_pre 2 1 1 3 2 ++ commit_post 2 3 2
-  (* the flush task goes to sleep; the level task does its round and goes to sleep *)
-  ++ map (fun l => (AFlush, l)) [LMemNotifiedLevel; LMemIdle; LMemWait]
-  ++ map (fun l => (ALevel, l)) [LLevelWait; LLevelWoken; LLevelRunning; LLevelDone 1; LSignal false; LLevelIdle; LLevelWait]
-  (* thread 3 finds two immutable memtables: stalled, waits for a notification nobody will send *)
-  ++ map (fun l => (ACommit 3, l)) [LEnter 1; LStallRegistered; LStallCounted 2 1; LStallWait].
-
-Definition w_evs : list (actor * label) := Eval vm_compute in w_evs_def.
-
-Definition w_run : option plstate := Eval vm_compute in prun wc (pinit wc 4 0 0) w_evs.
-
-Definition s_w : plstate :=
-  Eval vm_compute in match w_run with Some s => s | None => pinit wc 0 0 0 end.
-
-Lemma w_run_ok : prun wc (pinit wc 4 0 0) w_evs = Some s_w.
-Proof. vm_compute. reflexivity. Qed.
-
-(* l0_quiet as a boolean check *)
-Definition l0_quietb (evs : list (actor * label)) (c : cfg) : bool :=
-  forallb (fun x => match snd x with LStallCounted _ l0 => Nat.ltb l0 (c_l0limit c) | _ => true end) evs.
-
-Lemma l0_quietb_sound : forall evs c, l0_quietb evs c = true -> l0_quiet evs c.
+(* ================================================================== L1: no deadlock *)
+Theorem deadlock_free : deadlock_free_stmt.
 Proof.
-  intros evs c H a im l0 Hin. unfold l0_quietb in H. rewrite forallb_forall in H.
-  specialize (H _ Hin). simpl in H. apply Nat.ltb_lt. exact H.
-Qed.
-
-Lemma w_quiet : l0_quiet w_evs wc.
-Proof. apply l0_quietb_sound. vm_compute. reflexivity. Qed.
-
-Definition w_t3 : thr := Eval vm_compute in match nth_error (thrs s_w) 3 with Some t => t | None => thr0 end.
-
-Lemma w_unfinished : unfinished s_w.
-Proof.
-  left. exists 3, w_t3. split.
-  - vm_compute. reflexivity.
-  - reflexivity.
-Qed.
-
-Ltac dead H := solve [ discriminate H | vm_compute in H; discriminate H ].
-
-Lemma w_commit_dead : forall i l s', env_label (ACommit i) l = false -> stutter l = false ->
-  pstep wc s_w (ACommit i) l = Some s' -> False.
-Proof.
-  intros i l s' He Hs Hp.
-  do 4 (destruct i as [|i];
-        [ destruct l; try (match goal with r : result |- _ => destruct r end);
-          try (match goal with b : bool |- _ => destruct b end);
-          dead He || dead Hs || dead Hp | ]).
-  destruct i; vm_compute in Hp; discriminate Hp.
-Qed.
-
-Lemma w_other_dead : forall a l s', (forall i, a <> ACommit i) -> env_label a l = false -> stutter l = false ->
-  pstep wc s_w a l = Some s' -> False.
-Proof.
-  intros a l s' Ha He Hs Hp.
-  destruct a as [i|i| | | | ].
-  - exfalso. apply (Ha i). reflexivity.
-  - destruct i; vm_compute in Hp; discriminate Hp.
-  - destruct l; try (destruct shutdown); dead He || dead Hs || dead Hp.
-  - destruct l; try (destruct shutdown); dead He || dead Hs || dead Hp.
-  - destruct l; try (destruct shutdown); try (destruct r); dead He || dead Hs || dead Hp.
-  - destruct l; dead He || dead Hs || dead Hp.
-Qed.
-
-Lemma w_no_progress : ~ progress_step wc s_w.
-Proof.
-  intros [a [l [s' [He [Hs Hp]]]]].
-  destruct a as [i|i| | | | ].
-  - exact (w_commit_dead i l s' He Hs Hp).
-  - apply (w_other_dead (AReader i) l s'); auto; discriminate.
-  - apply (w_other_dead AFlush l s'); auto; discriminate.
-  - apply (w_other_dead ALevel l s'); auto; discriminate.
-  - apply (w_other_dead ACloser l s'); auto; discriminate.
-  - apply (w_other_dead AMain l s'); auto; discriminate.
-Qed.
-
-End Witness.
-
-Theorem deadlock_free_refuted : deadlock_free_refuted_stmt 8 7 2.
-Proof.
-  exists 4, Witness.w_evs, Witness.s_w.
-  split; [ exact Witness.w_run_ok | ].
-  split; [ exact Witness.w_quiet | ].
-  split; [ exact Witness.w_unfinished | exact Witness.w_no_progress ].
-Qed.
-
-(* ================================================================== Part 2a: the core statement is false as stated
-   A commit() of an EMPTY batch (`LEnter 0`) takes the mutex and then has no step in the model:
-   `LSeqAllocated` requires `0 < cnt`.  With both background tasks parked, nothing can move. *)
-Module EmptyBatch.
-
-Definition ec : cfg := {| c_slots := 2; c_permits := 1; c_memlimit := 2; c_l0limit := 1 |}.
-
-Definition e_evs : list (actor * label) :=
-  Eval vm_compute in
-    map (fun l => (ACommit 0, l))
-      [LEnter 0; LStallRegistered; LStallCounted 0 0; LStallOk; LSemAcquired; LWantLock; LLocked; LChecked]
-    ++ [(AFlush, LMemWait); (ALevel, LLevelWait)].
-
-Definition s_e : plstate :=
-  Eval vm_compute in match prun ec (pinit ec 1 0 0) e_evs with Some s => s | None => pinit ec 0 0 0 end.
-
-Lemma e_run_ok : prun ec (pinit ec 1 0 0) e_evs = Some s_e.
-Proof. vm_compute. reflexivity. Qed.
-
-Ltac dead H := solve [ discriminate H | vm_compute in H; discriminate H ].
-
-Lemma e_no_progress : ~ progress_step ec s_e.
-Proof.
-  intros [a [l [s' [He [Hs Hp]]]]].
-  destruct a as [i|i| | | | ].
-  - destruct i as [|i].
-    + destruct l; try (match goal with r : result |- _ => destruct r end);
-        try (match goal with b : bool |- _ => destruct b end);
-        try (dead He || dead Hs || dead Hp).
-      (* LSeqAllocated sq cnt at CChecked with t_cnt = 0: the guard needs cnt = 0 and 0 < cnt *)
-      cbv [pstep get_thr s_e thrs nth_error step_commit t_pc t_cnt guard next_seq] in Hp.
-      destruct (Nat.eqb sq 1); simpl in Hp; [ | discriminate Hp ].
-      destruct cnt; simpl in Hp; discriminate Hp.
-    + destruct i; vm_compute in Hp; discriminate Hp.
-  - destruct i; vm_compute in Hp; discriminate Hp.
-  - destruct l; try (destruct shutdown); dead He || dead Hs || dead Hp.
-  - destruct l; try (destruct shutdown); dead He || dead Hs || dead Hp.
-  - destruct l; try (destruct shutdown); try (destruct r); dead He || dead Hs || dead Hp.
-  - destruct l; dead He || dead Hs || dead Hp.
-Qed.
-
-Lemma e_core : core_run e_evs.
-Proof.
-  intros a l Hin. unfold e_evs in Hin. simpl in Hin.
-  repeat (destruct Hin as [Hin|Hin]; [ inversion Hin; subst; reflexivity | ]). contradiction.
-Qed.
-
-Lemma e_failure_free : failure_free e_evs.
-Proof.
-  intros a l Hin. unfold e_evs in Hin. simpl in Hin.
-  repeat (destruct Hin as [Hin|Hin]; [ inversion Hin; subst; reflexivity | ]). contradiction.
-Qed.
-
-Lemma e_quiet : l0_quiet e_evs ec.
-Proof. apply Witness.l0_quietb_sound. vm_compute. reflexivity. Qed.
-
-Definition e_t0 : thr := Eval vm_compute in match nth_error (thrs s_e) 0 with Some t => t | None => thr0 end.
-
-Lemma e_unfinished : unfinished s_e.
-Proof. left. exists 0, e_t0. split; [ vm_compute; reflexivity | reflexivity ]. Qed.
-
-Lemma e_not_starved : ~ flush_starved ec s_e.
-Proof. intros [H _]. vm_compute in H. lia. Qed.
-
-End EmptyBatch.
-
-(* counterexample to `deadlock_free_core_stmt` and to `deadlock_free_partial_stmt` *)
-Theorem deadlock_free_core_false : ~ deadlock_free_core_stmt.
-Proof.
-  intros H.
-  apply EmptyBatch.e_no_progress.
-  apply (H EmptyBatch.ec 1 0 0 EmptyBatch.e_evs EmptyBatch.s_e).
-  - simpl; lia.
-  - simpl; lia.
-  - simpl; lia.
-  - simpl; lia.
-  - exact EmptyBatch.e_run_ok.
-  - exact EmptyBatch.e_core.
-  - exact EmptyBatch.e_failure_free.
-  - exact EmptyBatch.e_unfinished.
-Qed.
-
-Theorem deadlock_free_partial_false : ~ deadlock_free_partial_stmt.
-Proof.
-  intros H.
-  apply EmptyBatch.e_no_progress.
-  apply (H EmptyBatch.ec 1 0 0 EmptyBatch.e_evs EmptyBatch.s_e).
-  - simpl; lia.
-  - simpl; lia.
-  - simpl; lia.
-  - exact EmptyBatch.e_run_ok.
-  - exact EmptyBatch.e_quiet.
-  - exact EmptyBatch.e_unfinished.
-  - exact EmptyBatch.e_not_starved.
-Qed.
-
-(* ================================================================== Part 2b: what holds for the pipeline alone
-   `deadlock_free_core_stmt` with the one additional hypothesis that no commit() has an empty batch.
-   The invariant (ring buffer, mutex, permits, ownership, pending completions, helper threads) is
-   in Conc/PipelineLiveCore*.v. *)
-
-
-Theorem deadlock_free_core_partial : deadlock_free_core_partial_stmt.
-Proof.
-  intros c n m v evs s Hp Hps Hm Hl Hrun Hcore Hff Hne Hun.
-  apply core_progress; auto.
-  apply (inv_run c evs (pinit c n m v) s); auto.
-  - apply inv_init; auto. lia.
-  - intros a l Hin. repeat split.
-    + apply (Hcore a l Hin).
-    + apply (Hff a l Hin).
-    + intros k ->. apply (Hne a k Hin).
-Qed.
-
-(* ================================================================== Part 3: the whole system
-   `deadlock_free_partial_stmt` (rotation, stall protocol, background tasks, close(), failures of
-   env.write / env.apply, conflicts, queue overflow) with the one additional hypothesis that no commit()
-   has an empty batch.  The invariant is in Conc/PipelineLiveGen*.v. *)
-
-Theorem deadlock_free_partial_nonempty : deadlock_free_partial_nonempty_stmt.
-Proof.
-  intros c n m v evs s Hp Hps Hm Hrun Hq Hne Hun Hns.
+  intros c n m v evs s Hp Hps Hm Hrun Hq Hne Hun.
   apply gen_progress; auto.
   apply (ginv_run c evs (pinit c n m v) s); auto.
   - apply ginv_init. lia.
@@ -258,7 +24,73 @@ Proof.
     + intros im l0 ->. apply (Hq a im l0 Hin).
 Qed.
 
-(* ================================================================== Part 4: termination (L2)
+(* ================================================================== the pipeline alone
+   Along a core run no memtable is ever rotated or flushed, so every stall check sees l0 = 0. *)
+Definition CoreI (s : plstate) : Prop :=
+  g_imm (bg s) = 0 /\ g_l0 (bg s) = 0 /\ forall j tj, thr_at s j tj -> t_pc tj <> CArenaFull.
+
+Lemma corei_commit_step : forall c s i t l s', CoreI s -> thr_at s i t -> core_label l = true ->
+  step_commit c s i t l = Some s' -> CoreI s'.
+Proof.
+  intros c s i t l s' [H1 [H2 H3]] Ht Hc H. pose proof (H3 i t Ht) as Hnot.
+  gcases l t H; ret_shape; try discriminate Hc; try (exfalso; apply Hnot; reflexivity).
+  all: try (split; [exact H1 | split; [exact H2 | exact H3]]).
+  all: (split; [ psimpl; simpl; rewrite ?Hr6; exact H1 | split; [ psimpl; simpl; rewrite ?Hr6; exact H2 | ] ]).
+  all: intros j tj Hj; thr_cases Hj Hne; try exact (H3 j tj Hj); simpl; rewrite ?Hpc;
+    repeat match goal with |- context [if ?b then _ else _] => destruct b end; try discriminate; auto.
+Qed.
+
+Lemma corei_step : forall c s a l s', CoreI s -> core_label l = true -> pstep c s a l = Some s' -> CoreI s'.
+Proof.
+  intros c s a l s' HC Hc H. destruct HC as [H1 [H2 H3]]. destruct a as [i|i| | | | ]; unfold pstep in H.
+  - unfold get_thr in H. destruct (nth_error (thrs s) i) as [t|] eqn:Ht; [|discriminate].
+    eapply corei_commit_step; eauto. split; auto.
+  - destruct (nth_error (rdrs s) i) as [r|]; [|discriminate]. unfold step_reader in H.
+    destruct l; destruct r; try discriminate H; inv_guard H; try (injection H as <-); split; auto.
+  - unfold step_flush in H. destruct l; destruct (g_fpc (bg s)); try discriminate H; inv_guard H;
+      try (injection H as <-); rewrite ?H1 in *; simpl in *; try discriminate; try lia; split; simpl; auto.
+  - unfold step_level in H. destruct l; destruct (g_lpc (bg s)); try discriminate H; try discriminate Hc; inv_guard H;
+      try (injection H as <-); split; simpl; auto.
+  - unfold step_closer in H. destruct l; destruct (g_xpc (bg s)); try discriminate H; inv_guard H;
+      try (injection H as <-); split; simpl; auto.
+  - destruct l; try discriminate H. inv_guard H. injection H as <-. split; simpl; auto.
+Qed.
+
+Lemma core_quiet : forall c evs s s', CoreI s -> prun c s evs = Some s' -> core_run evs -> 0 < c_l0limit c -> l0_quiet evs c.
+Proof.
+  intros c evs. induction evs as [|[a l] r IH]; intros s s' HC H Hcr Hl0; simpl in H.
+  - intros a im l0 [].
+  - destruct (pstep c s a l) as [s1|] eqn:Hs; [|discriminate].
+    assert (Hcl : core_label l = true) by (apply (Hcr a l); left; reflexivity).
+    assert (HC1 : CoreI s1) by (eapply corei_step; eauto).
+    assert (Hq : l0_quiet r c).
+    { apply (IH s1 s'); auto. intros a' l' Hin. apply (Hcr a' l'). right. exact Hin. }
+    intros a' im l0 [Heq|Hin]; [|apply (Hq a' im l0 Hin)].
+    injection Heq as -> ->. destruct HC as [_ [H2 _]].
+    destruct a' as [i|i| | | | ]; unfold pstep in Hs.
+    + unfold get_thr in Hs. destruct (nth_error (thrs s) i) as [t|]; [|discriminate].
+      unfold step_commit in Hs. destruct (t_pc t); try discriminate Hs. inv_guard Hs. boolp. subst. lia.
+    + destruct (nth_error (rdrs s) i) as [rr|]; [|discriminate]. destruct rr; discriminate Hs.
+    + unfold step_flush in Hs. destruct (g_fpc (bg s)); discriminate Hs.
+    + unfold step_level in Hs. destruct (g_lpc (bg s)); discriminate Hs.
+    + unfold step_closer in Hs. destruct (g_xpc (bg s)); discriminate Hs.
+    + discriminate Hs.
+Qed.
+
+Lemma corei_init : forall c n m v, CoreI (pinit c n m v).
+Proof.
+  intros. split; [reflexivity|]. split; [reflexivity|]. intros j tj Hj. unfold thr_at in Hj. simpl in Hj.
+  apply nth_error_repeat in Hj. subst. discriminate.
+Qed.
+
+Theorem deadlock_free_core : deadlock_free_core_stmt.
+Proof.
+  intros c n m v evs s Hp Hps Hm Hl Hrun Hcore _ Hne Hun.
+  apply (deadlock_free c n m v evs s); auto.
+  eapply core_quiet; eauto. apply corei_init.
+Qed.
+
+(* ================================================================== L2: termination
    The measure `mu` (Conc/PipelineLiveTerm.v) is a natural number that strictly decreases on every
    step of the system itself, from every reachable state. *)
 Theorem terminates : terminates_stmt.
